@@ -89,7 +89,7 @@ fn main() {
         extdata::oracle,
     );
     // 3. random: everything varies, incl. free-form location strings
-    let n = ck.pick(8000, 400_000);
+    let n = ck.pick(6000, 400_000);
     ck.prop(
         "random",
         n,
